@@ -204,6 +204,11 @@ def check_case(case, ctx, model=None):
                 if any(not (rx[i]["lb"] <= 0 <= rx[i]["ub"]) for i in oracles.internal_ids(spec)) or c05._has_any_cycle(spec):
                     opts = {}
                     classes.append("loopless-not-applicable")
+            if opts.get("fraction_of_optimum", 1) != 1 and wt.value < 0:
+                # a fraction below one is only meaningful when the optimum has the sign of the direction (all models here
+                # maximise): with a negative optimum "at least 0.9 x optimum" is stricter than the optimum itself
+                opts.pop("fraction_of_optimum")
+                classes.append("fraction-not-applicable")
             classes.append("fva-opts-" + ("+".join(sorted(opts)) or "default"))
             ref = fa.flux_variability_analysis(model, reaction_list=rids, processes=1, **opts)
             with sched.controlled(module, task, case["delays"], case["chunk"], record):
